@@ -127,6 +127,27 @@ def check_render(seq, R, proj):
                 break
         if bad:
             out.append(("C06.NestedDict", bad))
+    out += check_modsampling(seq, proj)
+    return out
+
+
+def decl_dur_fall(ch):
+    """Declarative duration with fall time of a projected channel: end of the last instruction, or
+    end of the last pulse-typed slot plus its fall time (current mode) if later."""
+    du = ch["sl"][-1]["tf"] if ch["sl"] else 0
+    in_eom = bool(ch["eb"]) and ch["eb"][-1]["tf"] == -1
+    ps = [s_ for s_ in ch["sl"] if s_["k"] == "p"]
+    if not ps:
+        return du
+    last = ps[-1]
+    return max(du, last["tf"] + (last["fe"] if in_eom else last["fs"]))
+
+
+def check_modsampling(seq, proj):
+    """C14(b) / C15 on one real state (needs no reference from the model)."""
+    out = []
+    names = list(seq._schedule.keys())
+    scheds = [seq._schedule[n] for n in names]
     # ---- C14(b): modulated sampling succeeds whenever plain sampling does, ends at duration + fall
     try:
         sm = sampler.sample(seq, modulation=True)
@@ -134,8 +155,9 @@ def check_render(seq, R, proj):
             got = len(_arr(sm.samples_list[i].amp))
             if len(_arr(sm.samples_list[i].det)) != got or len(_arr(sm.samples_list[i].phase)) != got:
                 got = -1
-            if got != ch["df"]:
-                out.append(("C14.ModSampling", {"clause": "length", "ch": names[i], "expected": ch["df"],
+            want = decl_dur_fall(ch)
+            if got != want:
+                out.append(("C14.ModSampling", {"clause": "length", "ch": names[i], "expected": want,
                                                 "got": got, "plain_len": ch["du"]}))
                 break
         # C15: the detuning between pulses is the off-detuning, also at the output: a channel that
